@@ -21,6 +21,7 @@ def multisets(vals, kmin, kmax):
             yield list(c)
 
 
+@core.guarded(lambda maxd, rpos, qpos, slack, shift, start, rev, *a: dict(maxDistance=maxd, reference=rpos, query=qpos, slack=slack, shift=shift, start=start, reverse=rev))
 def check_case(maxd, rpos, qpos, slack, shift, start, rev, acc, engine=None):
     eng = engine or AlignerEngine(maxd)
     q = OpticalMap(2, qpos[-1] + 1 + slack, qpos, shift=shift)
